@@ -809,8 +809,25 @@ func c07EnumGeneric(size, shard, nshards int, emit func(c07Case)) {
 								if idx%nshards != shard || !c07Pick(idx, size) {
 									continue
 								}
-								emit(c07GenericCase(version, kind, sMem, lvl, fed, sender, hasPL))
+								emit(c07GenericCase(version, kind, sMem, lvl, fed, sender, hasPL, 50))
 							}
+						}
+					}
+				}
+			}
+		}
+		// the same product around thresholds of 0 and -10 (senders with negative levels; a required
+		// level of zero or less is still a requirement)
+		for _, kind := range types {
+			for _, sMem := range c07PrevMems {
+				for _, base := range []int64{0, -10} {
+					for _, off := range []int64{-1, 0, 1} {
+						for _, sender := range []string{c07Alice, c07Creator} {
+							idx++
+							if idx%nshards != shard || !c07Pick(idx, size) {
+								continue
+							}
+							emit(c07GenericCase(version, kind, sMem, base+off, "", sender, true, base))
 						}
 					}
 				}
@@ -839,30 +856,30 @@ func c07EnumGeneric(size, shard, nshards int, emit func(c07Case)) {
 	}
 }
 
-func c07GenericCase(version, kind, sMem string, lvl int64, fed, sender string, hasPL bool) c07Case {
+func c07GenericCase(version, kind, sMem string, lvl int64, fed, sender string, hasPL bool, base int64) c07Case {
 	users := map[string]int64{sender: lvl}
 	if vtraits[version].Creators {
 		delete(users, c07Creator)
 	}
 	r := c07Room{Version: version, HasPL: hasPL, JoinRule: "public", Federate: fed, Members: map[string]string{c07Creator: "join"}}
 	r.Members[sender] = sMem
-	// every relevant threshold is 50 so that lvl is <, =, > the requirement
+	// every relevant threshold is base (50 in the main product) so that lvl is <, =, > the requirement
 	var events map[string]int64
 	switch kind {
 	case "third_party_invite-events-entry-high":
-		events = map[string]int64{"m.room.third_party_invite": 100} // the invite level (50) decides, not this entry
+		events = map[string]int64{"m.room.third_party_invite": base + 50} // the invite level (base) decides, not this entry
 	case "third_party_invite-events-entry-low":
-		events = map[string]int64{"m.room.third_party_invite": 0}
+		events = map[string]int64{"m.room.third_party_invite": base - 50}
 	case "topic-events-entry-high":
-		events = map[string]int64{"m.room.topic": 51} // explicit entries DO decide for ordinary types
+		events = map[string]int64{"m.room.topic": base + 1} // explicit entries DO decide for ordinary types
 	case "message-events-entry-low":
-		events = map[string]int64{"m.room.message": 49}
+		events = map[string]int64{"m.room.message": base - 1}
 	}
-	named := map[string]int64{"events_default": 50, "state_default": 50, "invite": 50, "redact": 50}
+	named := map[string]int64{"events_default": base, "state_default": base, "invite": base, "redact": base}
 	if strings.HasPrefix(kind, "redaction") {
-		// sending a redaction needs one level less than the redact level, so that at lvl = 49 the
+		// sending a redaction needs one level less than the redact level, so that at lvl = base-1 the
 		// event may be sent and only the redaction rule itself (same server / redact level) decides
-		named["events_default"] = 49
+		named["events_default"] = base - 1
 	}
 	r.PL = c07PLContent(users, named, events, nil)
 	if events != nil {
